@@ -41,6 +41,11 @@ package model
 
 //@ func (*BinaryModel).ResolveDependencies
 //@   requires packetsNonNil(m)
+//@   ensures [C12:D6-all-resolved] len(m.SyntaxErrors) == old(len(m.SyntaxErrors)) ==> forall(p, 0, len(m.Packets), forall(i, 0, len(m.Packets[p].Fields), resolved(m, m.Packets[p].Fields[i])))
+//@   loop 0 invariant m.PacketsMap == entry(m.PacketsMap) && len(m.Packets) == entry(len(m.Packets)) && forall(q, 0, len(m.Packets), m.Packets[q] == entry(m.Packets[q]))
+//@   loop 0 invariant len(m.SyntaxErrors) >= old(len(m.SyntaxErrors)) && (len(m.SyntaxErrors) == old(len(m.SyntaxErrors)) ==> forall(p, 0, rangeindex + 1, forall(i, 0, len(m.Packets[p].Fields), resolved(m, m.Packets[p].Fields[i]))))
+//@   loop 1 invariant m.PacketsMap == entry(m.PacketsMap) && len(m.Packets) == entry(len(m.Packets)) && forall(q, 0, len(m.Packets), m.Packets[q] == entry(m.Packets[q]))
+//@   loop 1 invariant len(m.SyntaxErrors) >= entry(len(m.SyntaxErrors))
 
 //@ func NewBinaryModel
 //@   ensures modelOK(result) && fresh(result) && metaWF(result) && len(result.Packets) == 0
@@ -84,9 +89,9 @@ package model
 //@ pred resolved(m *BinaryModel, f *Field) := (typeis(f.Attr, *ObjectFieldAttribute) ==> unbox(f.Attr, *ObjectFieldAttribute).RefPacket != nil) && (typeis(f.Attr, *MatchFieldAttribute) ==> forall(k, 0, len(unbox(f.Attr, *MatchFieldAttribute).MatchPairs), haskey(m.PacketsMap, unbox(f.Attr, *MatchFieldAttribute).MatchPairs[k].Value)))
 
 //@ func (*BinaryModel).resolveFields
-//@   ensures m.PacketsMap == old(m.PacketsMap)
-//@   loop 0 invariant m.PacketsMap == old(m.PacketsMap)
-//@   loop 1 invariant m.PacketsMap == old(m.PacketsMap)
+//@   ensures m.PacketsMap == old(m.PacketsMap) && len(m.Packets) == old(len(m.Packets)) && forall(q, 0, len(m.Packets), m.Packets[q] == old(m.Packets[q]))
+//@   loop 0 invariant m.PacketsMap == old(m.PacketsMap) && len(m.Packets) == old(len(m.Packets)) && forall(q, 0, len(m.Packets), m.Packets[q] == old(m.Packets[q]))
+//@   loop 1 invariant m.PacketsMap == old(m.PacketsMap) && len(m.Packets) == old(len(m.Packets)) && forall(q, 0, len(m.Packets), m.Packets[q] == old(m.Packets[q]))
 //@   ensures [C12:D6-resolved-or-reported] len(m.SyntaxErrors) >= old(len(m.SyntaxErrors)) && (len(m.SyntaxErrors) == old(len(m.SyntaxErrors)) ==> forall(i, 0, len(fields), resolved(m, fields[i])))
 //@   loop 0 invariant len(m.SyntaxErrors) >= old(len(m.SyntaxErrors))
 //@   loop 0 invariant len(m.SyntaxErrors) == old(len(m.SyntaxErrors)) ==> forall(i, 0, rangeindex + 1, typeis(fields[i].Attr, *ObjectFieldAttribute) ==> unbox(fields[i].Attr, *ObjectFieldAttribute).RefPacket != nil)
